@@ -71,6 +71,9 @@ fn intent_topic(m: &Mdl, act: &Act) -> Option<Vec<u8>> {
 }
 
 fn store_ent_size(e: &StoreEnt, ver: Ver, w: usize) -> usize {
+    if e.size > 0 {
+        return e.size;
+    }
     let ap = match e.kind {
         3 => AP::Ack { ver, kind: AckKind::Pubrel, pid: e.id, code: None, props: None },
         k => AP::Publish { ver, dup: true, qos: k, retain: false, topic: e.topic.clone(), pid: Some(e.id), props: vec![], payload: e.payload.clone() },
@@ -343,6 +346,18 @@ pub fn observe(m: &mut Mdl, c: &Call, r: &mut Rules, w: usize) {
         if *size != bytes.len() {
             r.viol("c14.size-mismatch", &pre, format!("size() {} != encoded length {} for {}", size, bytes.len(), ap_short(ap)));
         }
+        // a transmitted PUBLISH must be a frame a spec-conformant receiver reads back as exactly these field
+        // values (the rewriting done for aliases / the store must keep the cached lengths consistent)
+        if let AP::Publish { .. } = ap {
+            r.label("pub.frame-checked");
+            let ok = matches!(rc::decode(ver, bytes, w), Ok(ref d) if d == ap);
+            if !ok {
+                let d = format!("the transmitted PUBLISH does not read back as the packet the library reports ({}): wire {} -> {:?}", ap_short(ap), crate::util::hex_trunc(bytes, 24), rc::decode(ver, bytes, w).map(|d| ap_short(&d)));
+                r.viol("c13.unresolvable-frame", &pre, d.clone());
+                r.viol("c06.retransmit-frame", &pre, d.clone());
+                r.viol("c14.frame", &pre, d);
+            }
+        }
         match ap {
             AP::Publish { topic, props, pid, qos, .. } => {
                 let al = alias_of(props);
@@ -477,7 +492,13 @@ pub fn observe(m: &mut Mdl, c: &Call, r: &mut Rules, w: usize) {
     if !m.as_client && pre.st != St::Disc || (!m.as_client && matches!(&c.kind, CallKind::Recv { ap: Some(AP::Connect { .. }), .. })) {
         let eff = m.link.ska.unwrap_or(m.link.ka_connect) as u64;
         let got: Vec<u64> = resets.iter().filter(|x| x.0 == Tk::PingreqRecv).map(|x| x.1).collect();
-        let accepted = matches!(c.kind, CallKind::Recv { .. }) && !c.recvs().is_empty() && !c.recvs().iter().any(|a| matches!(a, AP::Disconnect { .. }));
+        // accepted = delivered, or a retransmitted QoS 2 PUBLISH of a handled identifier that is answered with
+        // PUBREC instead of being delivered again
+        let dup_answered = matches!(&c.kind, CallKind::Recv { ap: Some(AP::Publish { qos: 2, .. }), .. }) && !c.has_error() && c.sends().iter().any(|a| matches!(a, AP::Ack { kind: AckKind::Pubrec, .. }));
+        if dup_answered && c.recvs().is_empty() {
+            r.label("c15.server-accepts-handled-duplicate");
+        }
+        let accepted = matches!(c.kind, CallKind::Recv { .. }) && (!c.recvs().is_empty() || dup_answered) && !c.recvs().iter().any(|a| matches!(a, AP::Disconnect { .. }));
         if eff == 0 {
             if !got.is_empty() && matches!(c.kind, CallKind::Recv { .. }) {
                 r.viol("c15.pingreq-recv-armed-for-0", &pre, format!("server arms the keep-alive receive timer ({got:?}) although the effective keep alive is 0: {}", c.describe()));
@@ -1078,9 +1099,13 @@ pub fn after_step<P: Pid>(m: &mut Mdl, pre_m: &Mdl, pre: &VerifState, post: &Ver
     let notes = take_notes();
     // decode the real store with the reference codec
     let mut real_store: Vec<AP> = vec![];
+    let mut real_sizes: Vec<usize> = vec![];
     for b in &post.store {
         match rc::decode(ver, b, w) {
-            Ok(ap) => real_store.push(ap),
+            Ok(ap) => {
+                real_store.push(ap);
+                real_sizes.push(b.len());
+            }
             Err(e) => {
                 r.viol("c06.store-undecodable", pre_m, format!("a stored packet does not decode with the reference codec ({e}): {}", crate::util::hex_trunc(b, 32)));
             }
@@ -1092,6 +1117,19 @@ pub fn after_step<P: Pid>(m: &mut Mdl, pre_m: &Mdl, pre: &VerifState, post: &Ver
             AP::Ack { kind: AckKind::Pubrel, pid, .. } => kind == 3 && *pid == id,
             _ => false,
         })
+    };
+    // size of a stored entry as the library holds it (the model does not track properties)
+    let size_of = |id: u32, kind: u8| -> usize {
+        real_store
+            .iter()
+            .zip(real_sizes.iter())
+            .find(|(a, _)| match a {
+                AP::Publish { qos, pid, .. } => *qos == kind && *pid == Some(id),
+                AP::Ack { kind: AckKind::Pubrel, pid, .. } => kind == 3 && *pid == id,
+                _ => false,
+            })
+            .map(|(_, n)| *n)
+            .unwrap_or(0)
     };
     for n in &notes {
         match n {
@@ -1105,7 +1143,7 @@ pub fn after_step<P: Pid>(m: &mut Mdl, pre_m: &Mdl, pre: &VerifState, post: &Ver
                         r.viol("c06.b-not-stored", pre_m, format!("session is persistent but the accepted QoS {q} PUBLISH id {id} is not in the store"));
                     }
                     if stored {
-                        m.store.push(StoreEnt { id: *id, kind: *q, topic: topic.clone(), payload: PAYLOAD.to_vec() });
+                        m.store.push(StoreEnt { id: *id, kind: *q, topic: topic.clone(), payload: PAYLOAD.to_vec(), size: size_of(*id, *q) });
                         r.label("c06.stored");
                     }
                 } else if stored {
@@ -1118,7 +1156,7 @@ pub fn after_step<P: Pid>(m: &mut Mdl, pre_m: &Mdl, pre: &VerifState, post: &Ver
                     r.viol("c06.b-pubrel-not-stored", pre_m, format!("session is persistent but the transmitted PUBREL id {id} is not in the store"));
                 }
                 if stored && !m.store.iter().any(|e| e.id == *id && e.kind == 3) {
-                    m.store.push(StoreEnt { id: *id, kind: 3, topic: vec![], payload: vec![] });
+                    m.store.push(StoreEnt { id: *id, kind: 3, topic: vec![], payload: vec![], size: size_of(*id, 3) });
                     r.label("c06.pubrel-stored");
                 }
             }
@@ -1164,7 +1202,7 @@ pub fn after_step<P: Pid>(m: &mut Mdl, pre_m: &Mdl, pre: &VerifState, post: &Ver
         let f = |v: &Vec<(u8, u32, Vec<u8>, Vec<u8>)>| v.iter().map(|x| format!("({},{},{:?})", x.0, x.1, String::from_utf8_lossy(&x.2))).collect::<Vec<_>>().join(" ");
         r.viol("c06.b-store-diverged", pre_m, format!("exported store [{}] differs from the packets that must still be stored [{}] (kind 1/2 = PUBLISH QoS, 3 = PUBREL; id; topic)", f(&real_view), f(&model_view)));
         // resynchronise so that one defect is reported once
-        m.store = real_view.iter().map(|x| StoreEnt { kind: x.0, id: x.1, topic: x.2.clone(), payload: x.3.clone() }).collect();
+        m.store = real_view.iter().zip(real_sizes.iter()).map(|(x, n)| StoreEnt { kind: x.0, id: x.1, topic: x.2.clone(), payload: x.3.clone(), size: *n }).collect();
     }
     for a in &real_store {
         if let AP::Publish { dup, topic, props, .. } = a {
